@@ -1,0 +1,140 @@
+//go:build verif
+
+/*
+ * Verification exports (WAL / value-log records): add-only wrappers around
+ * logFile.encodeEntry, safeRead.Entry, logFile.iterate and logFile.decodeEntry.
+ * Compiled only with `-tags verif`.
+ */
+
+package badger
+
+import (
+	"bufio"
+	"bytes"
+	"io"
+
+	"github.com/dgraph-io/badger/v4/pb"
+	"github.com/dgraph-io/ristretto/v2/z"
+)
+
+// VerifLogEntry is the projection of an Entry delivered by logFile.iterate / safeRead.Entry,
+// together with the value pointer iterate computed for it.
+type VerifLogEntry struct {
+	Key, Value []byte
+	Meta       byte
+	UserMeta   byte
+	ExpiresAt  uint64
+	Offset     uint32 // Entry.offset
+	Hlen       int    // Entry.hlen (safeRead only)
+	VpFid      uint32
+	VpLen      uint32
+	VpOffset   uint32
+}
+
+// verifLogFile builds a logFile over an in-memory image of the file (iterate reads through
+// lf.NewReader, i.e. lf.Data).  aesKey == nil: no encryption (dataKey == nil).
+func verifLogFile(data []byte, fid uint32, aesKey, baseIV []byte) *logFile {
+	lf := &logFile{MmapFile: &z.MmapFile{Data: data}, fid: fid, path: "verif.log"}
+	if aesKey != nil {
+		lf.dataKey = &pb.DataKey{KeyId: 1, Data: aesKey}
+	}
+	lf.baseIV = baseIV
+	return lf
+}
+
+// VerifLogEncodeEntry runs logFile.encodeEntry and returns the bytes written to the buffer and
+// the returned length.
+func VerifLogEncodeEntry(key, value []byte, meta, userMeta byte, expiresAt uint64, offset uint32,
+	aesKey, baseIV []byte) ([]byte, int, error) {
+	lf := verifLogFile(nil, 0, aesKey, baseIV)
+	var buf bytes.Buffer
+	e := &Entry{Key: key, Value: value, meta: meta, UserMeta: userMeta, ExpiresAt: expiresAt}
+	n, err := lf.encodeEntry(&buf, e, offset)
+	return append([]byte{}, buf.Bytes()...), n, err
+}
+
+// Error classes of safeRead.Entry as seen by logFile.iterate.
+const (
+	VerifRdOk            = 0
+	VerifRdEOF           = 1 // io.EOF
+	VerifRdUnexpectedEOF = 2 // io.ErrUnexpectedEOF
+	VerifRdTruncate      = 3 // errTruncate
+	VerifRdOther         = 4 // any other error: iterate returns it
+	VerifRdPanic         = 5
+)
+
+func verifRdClass(err error) int {
+	switch {
+	case err == nil:
+		return VerifRdOk
+	case err == io.EOF:
+		return VerifRdEOF
+	case err == io.ErrUnexpectedEOF:
+		return VerifRdUnexpectedEOF
+	case err == errTruncate:
+		return VerifRdTruncate
+	}
+	return VerifRdOther
+}
+
+// VerifLogSafeRead runs safeRead.Entry once on a reader positioned at data[0], with
+// recordOffset as given (the reader is the same bufio.Reader construction iterate uses).
+func VerifLogSafeRead(data []byte, recordOffset uint32, aesKey, baseIV []byte) (ent VerifLogEntry, class int) {
+	lf := verifLogFile(data, 0, aesKey, baseIV)
+	reader := bufio.NewReader(lf.NewReader(0))
+	read := &safeRead{k: make([]byte, 10), v: make([]byte, 10), recordOffset: recordOffset, lf: lf}
+	defer func() {
+		if r := recover(); r != nil {
+			class = VerifRdPanic
+		}
+	}()
+	e, err := read.Entry(reader)
+	class = verifRdClass(err)
+	if err == nil {
+		ent = VerifLogEntry{Key: append([]byte{}, e.Key...), Value: append([]byte{}, e.Value...),
+			Meta: e.meta, UserMeta: e.UserMeta, ExpiresAt: e.ExpiresAt, Offset: e.offset, Hlen: e.hlen}
+	}
+	return
+}
+
+// VerifLogIterate runs logFile.iterate(readOnly=true, offset, fn) over the file image `data`
+// and returns what fn received, the valid end offset and the error class
+// (0 = nil error, VerifRdOther = error returned, VerifRdPanic = panic).
+func VerifLogIterate(data []byte, fid uint32, offset uint32, aesKey, baseIV []byte) (out []VerifLogEntry, validEnd uint32, class int) {
+	lf := verifLogFile(data, fid, aesKey, baseIV)
+	defer func() {
+		if r := recover(); r != nil {
+			class = VerifRdPanic
+		}
+	}()
+	end, err := lf.iterate(true, offset, func(e Entry, vp valuePointer) error {
+		out = append(out, VerifLogEntry{Key: append([]byte{}, e.Key...), Value: append([]byte{}, e.Value...),
+			Meta: e.meta, UserMeta: e.UserMeta, ExpiresAt: e.ExpiresAt, Offset: e.offset, Hlen: e.hlen,
+			VpFid: vp.Fid, VpLen: vp.Len, VpOffset: vp.Offset})
+		return nil
+	})
+	if err != nil {
+		return out, end, VerifRdOther
+	}
+	return out, end, VerifRdOk
+}
+
+// VerifLogDecodeEntry runs logFile.decodeEntry on buf (capacity clipped to its length).
+func VerifLogDecodeEntry(buf []byte, offset uint32, aesKey, baseIV []byte) (ent VerifLogEntry, ok bool) {
+	lf := verifLogFile(nil, 0, aesKey, baseIV)
+	defer func() {
+		if r := recover(); r != nil {
+			ok = false
+		}
+	}()
+	b := buf[:len(buf):len(buf)]
+	e, err := lf.decodeEntry(b, offset)
+	if err != nil {
+		return ent, false
+	}
+	return VerifLogEntry{Key: append([]byte{}, e.Key...), Value: append([]byte{}, e.Value...),
+		Meta: e.meta, UserMeta: e.UserMeta, ExpiresAt: e.ExpiresAt, Offset: e.offset}, true
+}
+
+// VerifLogHeaderSize is vlogHeaderSize (key id + base IV at the start of every log file).
+const VerifLogHeaderSize = vlogHeaderSize
